@@ -5,9 +5,9 @@ cd "$(dirname "$0")/.." || exit 2
 /venv/bin/python tools/gen_manifest.py || exit 2
 rc=0
 for p in C02 C03 C04 C06 C08 C09 C10 C11 C12 C14 C15 C16 C17 C18 C20; do
-  # a 28 s exploration budget instead of the default 40 s: the committed evidence then describes a run that any fresh
-  # run at the default budget covers and exceeds, also on a busier machine (counts in it are what this run really did)
-  out=$(VERIF_BUDGET_S=28 ./check $p --tier quick 2>&1); r=$?
+  # the plain quick command: fixed work quota (sim/driver.py:QUICK_RUNS), so the committed evidence is what any fresh run
+  # of the same command reports, whatever the machine's speed
+  out=$(env -u VERIF_BUDGET_S -u VERIF_MAX_RUNS -u VERIF_SEED ./check $p --tier quick 2>&1); r=$?
   echo "$p exit=$r $(echo "$out" | grep -E 'tier=quick' | tail -1 | cut -c1-120)"
   [ $r -ne 0 ] && { rc=1; echo "$out" | grep -E "VIOLATION|violation found|HARNESS" | head -5; }
 done
